@@ -531,6 +531,25 @@ theorem C08_accepts_iff_legal_example (parts : List Name) (h2 : ∃ a ∈ parts,
     rcases he with rfl | rfl | rfl | rfl <;> simp at hx
     subst hx; decide) 50 exOneofAndorTree C08_collectOf_example hsm (by decide) parts h2 b hb⟩
 
+/-- the schema-level hypotheses are satisfiable (same example schema): no sub-supertype at all, one ONEOF of two operands -/
+example (parts : List Name) (h2 : ∃ a ∈ parts, ∃ b ∈ parts, a ≠ b) (b : Bool)
+    (hs : supports exOneofAndorTree [] parts = .ok b) : b = true ↔ Legal exOneofAndor parts = true :=
+  C08_accepts_iff_legal_schema_partial exForest
+    (by intro e he x hx
+        simp only [exOneofAndor, List.mem_cons, List.mem_nil_iff, or_false] at he
+        rcases he with rfl | rfl | rfl | rfl <;> simp at hx
+        subst hx; decide)
+    (by intro e he hsup hsub
+        simp only [exOneofAndor, List.mem_cons, List.mem_nil_iff, or_false] at he
+        rcases he with rfl | rfl | rfl | rfl <;> simp at hsup hsub)
+    (by intro e he x hx
+        simp only [exOneofAndor, List.mem_cons, List.mem_nil_iff, or_false] at he
+        rcases he with rfl | rfl | rfl | rfl <;> simp at hx
+        subst hx
+        simp only [Expr.oneofSmall, Expr.oneofSmallL, and_true, List.length_cons, List.length_nil]
+        decide)
+    50 exOneofAndorTree C08_collectOf_example parts h2 b hs
+
 -- ------------------------------------------------------------------ EntNode::sort (renamed parts)
 /-- with strict comparisons in `lastSmaller` (the source before fixes/C08-2) two equal names make `EntNode::sort`
 dereference NULL: request list `a a c b` (replayed on the real code by the sort stream once the finding is listed) -/
